@@ -110,8 +110,31 @@ CLAIMED = {
         "emitted on this run yields the documented value for ALL operand valuations.",
    technique="Rocq proof: typed reference evaluator + agreement with the numeric_std model for all widths; verified checker per compiled expression design, exhaustive over operand values",
    design_ref="DESIGN.md §6 C02"),
+ "C05": dict(
+   text="Proof. Gallina model Conv of the assignment check (assign_ok, one clause per assignment form) and of the emitted cast (cast_emit, conv_val); unbounded theorems: every accepted pair of the documented matrix preserves the numeric value for all widths and values (C05_value_documented), "
+        "widening is sign-/zero-correct and no accepted documented pair truncates (C05_no_truncation_documented), accepted port connections have identical types (C05_port_forms_sound), the merged type of conditional values is wide enough (C05_join_sound_partial); "
+        "the places where the code accepts more than the documented matrix are stated as *_refuted theorems with witnesses (the known findings). Tie: every (form, source type, target type) cell is compiled with the REAL compiler and accept/reject is compared with assign_ok inside Coq; "
+        "for accepted pairs a kernel-checked theorem per packed design that the parsed emitted VHDL outputs conv_val of the input for ALL source values; emitted cast text = cast_emit.",
+   technique="Rocq proof on a Gallina model of the conversion matrix and casts (all widths); model tied to the compiler by per-cell accept/reject correspondence, per-design value theorems and cast-text comparison",
+   design_ref="DESIGN.md §6 C05"),
+ "C06": dict(
+   text="Proof. Unbounded theorems: the static legality rules of Vhdl/Typing.v are sound for the VHDL semantics (C06_wt_sound, C06_exec_sound: a well-typed statement never evaluates to a type/width error), the model of name assignment (Names.uniquify = VhdlScope.complete_setup) "
+        "always yields distinct, free, legal identifiers that avoid enumeration literals and terminates (C06_uniquify_*), reserved-word table theorems. Per run: every emitted entity of the regression corpus + naming/expression generators (thorough: + all upstream designs) is parsed fail-closed "
+        "and the rules (well-typedness, port associations, case coverage, port modes, sensitivity, identifier syntax, unique declarations, no reserved words, no hiding of predefined names, unique units) are evaluated inside Coq; recorded complete_setup calls are compared with the model; "
+        "the live reserved-word/operator tables are regenerated and checked against the checked-in VHDL-93 table. The delta-cycle lift of rule soundness is partial (C06_run_conc_sound_partial).",
+   technique="Rocq proof: soundness of typing/naming rules over the VHDL semantics + Gallina model of the name uniquifier; rules evaluated in Coq on every emitted entity; model=code correspondence on recorded scopes",
+   design_ref="DESIGN.md §6 C06"),
+ "C20": dict(
+   text="Proof. Per (register-map layout, phase) a kernel-checked theorem: for ALL input sequences over the phase's alphabet (every valid/ready timing on the write-address, write-data, write-response, read-address and read-data channels, mapped and unmapped addresses, the listed data patterns and byte strobes) "
+        "the AXI4-Lite monitor of Models/AxiSpec.v (valid held until ready, exactly one response per transaction, OKAY/DECERR by address, strobed bytes written and others kept, read data = register content) never flags on the parsed VHDL of a wrapper around the REAL std.axi.axi4_light.Axi4Light + reg32 address map. "
+        "Layouts, data patterns and strobes are enumerated; sequences are proved.",
+   technique="Rocq proof: verified reachability checker on design x AXI-monitor product (mcheck_s_sound) per compiled register map",
+   design_ref="DESIGN.md §6 C20"),
 }
 ALL = ["C%02d" % i for i in range(1, 21)]
+PENDING = {"C20"}   # built, not yet green on the unchanged tree within the quick budget
+for _p in PENDING:
+    CLAIMED.pop(_p, None)
 
 def main():
     checks = []
@@ -135,9 +158,9 @@ def main():
     m = {
         "version": 1,
         "setup_cmd": "cd /verif && ./setup",
-        "hooks": {"guard": "COHDL_VERIF", "enable": "no instrumentation hooks are needed; checks import /repo's working tree with PYTHONPATH=/repo (COHDL_VERIF=1 is set but unused)",
+        "hooks": {"guard": "COHDL_VERIF", "enable": "no instrumentation hooks are needed; checks import /repo's working tree with PYTHONPATH=/repo (COHDL_VERIF=1 is set but unused); the unguarded repairs are the commits whose message starts with fix:, each recorded in /verif/known_findings.json",
                   "baseline_off_cmd": "cd /repo && /venv/bin/python -m pytest -ra -q -p no:cacheprovider --timeout=900 --continue-on-collection-errors",
-                  "source_commits": ["3476bfe", "f803d4c", "1abaf18", "c2629f5", "facaad0", "1fd038a", "3cbec06", "5b71994", "bf02a0d", "bf64bc4", "d02d2a3", "693e83d", "571f6ca", "b791a08", "fd66e52", "cdec138", "648268b", "54fd6e4", "8d199e0", "a252909", "1da1fb5", "8d3d526", "615f499", "f68d635", "73c9e08", "72ebcaa", "215d68c", "5bdcba1", "36732b7", "5a04c14", "b374a2c", "94f10ee", "66ecb7a", "60980b9", "825f8bb", "3102177", "e0166b5", "efe8b9f", "3a94e11", "6279104"], "add_only": True},
+                  "source_commits": [], "add_only": True},
         "engines": [
             {"name": "coq-theories", "path": "/verif/coq", "serves_properties": sorted(CLAIMED), "kind_free_text": "Coq 8.16.1 development: models, semantics, verified checker, property theorems (full .vo build)"},
             {"name": "coq-cases", "path": "/verif/gen", "serves_properties": sorted(CLAIMED), "kind_free_text": "per-run generated obligations evaluated/proved by coqc (vm_compute)"},
